@@ -908,6 +908,11 @@ fn jobsout_main(env: &mut Env<VS>, args: Vec<Field>) -> BFut<'_> {
         let stopped = rest.get(1..).is_some_and(|r| r.trim_start().starts_with("Stopped"));
         rows.push((n, marker, stopped));
     }
+    // (with job ID operands only the named jobs are listed, possibly more than
+    // once: the rules below are about a listing of all jobs)
+    if label.starts_with("ops:") {
+        rows.clear();
+    }
     let mut problem: Option<String> = None;
     let mut nums: Vec<u32> = rows.iter().map(|r| r.0).collect();
     nums.sort();
@@ -930,7 +935,17 @@ fn jobsout_main(env: &mut Env<VS>, args: Vec<Field>) -> BFut<'_> {
     }
     if let Some(ctl) = ctl() {
         ctl.count("jobs_listings_checked");
-        ctl.record(pid, "jobsout", 0, 0, &label);
+        // (third operand: file with what the built-in wrote to stderr; an error
+        // - a job ID that designates nothing - makes the listing incomparable)
+        let failed = a.get(2).is_some_and(|p| {
+            let state = world_state();
+            let st = state.borrow();
+            st.file_system.get(*p).ok().is_some_and(|inode| match &inode.borrow().body {
+                yash_env::system::r#virtual::FileBody::Regular { content, .. } => !content.is_empty(),
+                _ => false,
+            })
+        });
+        ctl.record(pid, "jobsout", failed as i64, 0, &label);
         if let Some(p) = problem {
             ctl.record(pid, "jobcheck-fail", 0, 0, &format!("jobs-listing: {p} at {label}; listing: {:?}", text));
         }
